@@ -136,6 +136,16 @@ def main(tier="quick"):
         for c in c04.build(backend, "quick"):
             cases.append(Case(pid, backend, c["query"], md, {"source": "partial"}, plans=pl))
             pid += 1
+        # explicit column names that REPEAT (legal: each column keeps its own storage and branch): vector, 2-D and scalar columns
+        a_ = qgen.ALPHA[backend]
+        A_ = f"e.{a_.primary}('A')"
+        cols = {"v1": f"{A_}.Select(lambda j: j.pt())", "v2": f"{A_}.Select(lambda j: j.eta())", "v3": f"{A_}.Where(lambda j: j.pt() > 1).Select(lambda j: j.nTrk())",
+                "m": f"{A_}.Select(lambda j: j.tags().Select(lambda t: t * 2))", "s": f"{A_}.Count()"}
+        for picks, names in ((("v1", "v2"), ["pt", "pt"]), (("v2", "v1"), ["pt", "pt"]), (("v1", "v2", "v3"), ["x", "x", "x"]), (("v1", "s", "v2"), ["pt", "n", "pt"]),
+                             (("v1", "v2", "v3"), ["a", "b", "a"]), (("m", "v1"), ["c", "c"]), (("v1", "m"), ["c", "c"]), (("s", "v1"), ["c", "c"]), (("m", "m"), ["t", "t"])):
+            q = f"ResultTTree(ds.Select(lambda e: ({', '.join(cols[p] for p in picks)})), {names!r}, 'mytree', 'file.root')"
+            cases.append(Case(pid, backend, q, md, {"source": "repeated-names"}, plans=pl))
+            pid += 1
         for q in opaque_programs(backend):
             cases.append(Case(pid, backend, q, md + (CPP_FN, CPP_COLL), {"source": "opaque"}, plans=pl))
             pid += 1
